@@ -5,8 +5,8 @@ import py_checks
 import runner_props
 
 PROP = "C16"
-LEAN_MODULES = ["PamsProps.C16", "PamsProps.SimE2E"]
-NAMESPACES = ["Pams.C16", "Pams.C16"]
+LEAN_MODULES = ["PamsProps.C16", "PamsProps.SimE2E", "PamsProps.SrcRunner"]
+NAMESPACES = ["Pams.C16", "Pams.C16", "Pams.C16"]
 DRIVERS = ["Events", "Runner", "Sim", "PyRun"]
 TRUSTED = [
     "arithmetic theorems are over ordered fields; the same Lean definitions are evaluated at Float and compared with Python bit-for-bit (tolerance 1e-12 only where noted)",
@@ -27,7 +27,7 @@ def run(ctx, model_available=True):
         res["diffs"] = res["diffs"] + diffs[:30]
         res["comparisons"]["unit_comparisons"] = compared
     # (T2) the translated source of the event handlers under the mini-Python semantics, against CPython
-    return py_checks.merge(res, ctx, ["event"], n_each=90, model_available=model_available)
+    return py_checks.merge(res, ctx, ["event", "runner"], n_each=90, model_available=model_available)
 
 
 def search(ctx, res):
